@@ -75,6 +75,9 @@ def shards(tier):
 def valid_request(rng, req, opt):
     ids = sorted(req)
     from nanite import preproc
+    if rng.random() < .1:
+        # the empty pipeline is a request like any other: raw columns
+        return [], {}
     while True:
         n = int(rng.integers(1, 7))
         sel = [ids[i] for i in rng.permutation(6)[:n]]
